@@ -140,12 +140,12 @@ type c50Gen struct{ h *H }
 func (g c50Gen) pick(l ...string) string { return l[g.h.Intn(len(l))] }
 
 func (g c50Gen) user() string {
-	switch g.h.Intn(8) {
-	case 0:
+	switch g.h.Intn(16) {
+	case 0, 4:
 		return ""
-	case 1:
+	case 1, 5:
 		return g.pick("us%40er", "a%3Ab", "j%c3%b6rg", "u%2Fx", "%zz", "%41", "a%20b")
-	case 2:
+	case 2, 6:
 		return g.pick("user.name", "u-s_e~r", "u+s", "u;v=1", "u$&,")
 	case 3:
 		return g.pick("a@b", "jörg", "u r", "u\"q", "u<>")
@@ -156,7 +156,11 @@ func (g c50Gen) user() string {
 
 // password built around a distinctive token; class is returned as label
 func (g c50Gen) password(tok string) (string, string) {
-	switch g.h.Intn(12) {
+	r := g.h.Intn(24)
+	if r >= 12 { // two thirds: classes net/url accepts in the user info
+		r = []int{0, 1, 1, 2, 2, 3, 3, 8, 9, 10, 1, 11}[r-12]
+	}
+	switch r {
 	case 0:
 		return tok, "plain"
 	case 1:
@@ -176,7 +180,7 @@ func (g c50Gen) password(tok string) (string, string) {
 	case 8:
 		return tok + strings.Repeat(g.pick("x", "%40", "ab"), 1+g.h.Intn(200)), "long"
 	case 9:
-		return g.pick("!$&'()*+,;=", "-._~", "[]", "{}|\\^`", "<>\"") + tok, "punct"
+		return g.pick("!$&'()*+,;=", "-._~", "!$&'()*+,;=", "-._~", "[]", "{}|\\^`", "<>\"") + tok, "punct"
 	case 10:
 		return g.pick("***", ":***@", "***@") + tok, "stars"
 	default:
@@ -191,7 +195,7 @@ func (g c50Gen) host() string {
 	}
 	switch g.h.Intn(6) {
 	case 0:
-		h += ":" + g.pick("8000", "1", "65535", "", "8000", "443", "port", "99999999")
+		h += ":" + g.pick("8000", "1", "65535", "", "8000", "443", "8443", "80", "port", "99999999")
 	case 1, 2:
 		h += ":8000"
 	}
@@ -208,7 +212,7 @@ func (g c50Gen) tail() string {
 
 // restTemplate returns a function that builds the location for a given userinfo part
 func (g c50Gen) restTemplate() (func(userinfo string) string, string) {
-	scheme := g.pick("http", "http", "https", "https", "http+unix", "HTTP", "h2c", "")
+	scheme := g.pick("http", "http", "https", "https", "http+unix", "HTTP", "h2c", "http", "https", "")
 	sep := "://"
 	lbl := "authority"
 	switch g.h.Intn(12) {
